@@ -33,7 +33,10 @@ Definition tstate_eqb (a b : tstate) : bool :=
 Inductive ackk := ANone | AAck (k : nat) | ABad.       (* acknowledges k more frames / beyond what was sent or >100 duplicates *)
 Record inframe := mkF { f_init : bool;                  (* REQ/RESP initiation frame *)
                         f_ack : ackk; f_fin : bool;     (* FIN flag present *)
-                        f_inorder : bool;               (* the FIN completes the stream (finProcessed) *)
+                        f_inorder : bool;               (* this arrival completes the stream: recvWindow.receive returns
+                                                           finProcessed — the FIN carried by this packet, or a FIN that
+                                                           was waiting in the reorder heap behind the data frame that
+                                                           this packet delivers (then the packet has no FIN flag) *)
                         f_data : bool }.
 
 Inductive uop := UClose | UWaitClose | UStop | UWrite.
@@ -186,8 +189,8 @@ Definition recv_fsm (s : sh) (f : inframe) : sh * bool :=
       end
     else (s, false) in
   (* Handle FIN *)
-  let finnow := (f_fin f && rw_closed s) || (f_fin f && f_inorder f && negb (rw_closed s)) in
-  let s1 := if f_fin f && f_inorder f && negb (rw_closed s1) && negb (tstate_eqb (ts s1) TClosed) then set_rw s1 else s1 in
+  let finnow := (f_fin f && rw_closed s) || (f_inorder f && negb (rw_closed s)) in
+  let s1 := if f_inorder f && negb (rw_closed s1) && negb (tstate_eqb (ts s1) TClosed) then set_rw s1 else s1 in
   let '(s2, w2) :=
     if finnow then
       let '(s2, w2) :=
